@@ -272,7 +272,10 @@ func appendTokensForValue(val cty.Value, toks Tokens) Tokens {
 		i := 0
 		for it := val.ElementIterator(); it.Next(); {
 			eKey, eVal := it.Element()
-			if hclsyntax.ValidIdentifier(eKey.AsString()) {
+			// A key named "for" must be quoted: as a bare identifier at the
+			// start of an object constructor it would be taken as the
+			// introduction of a "for" expression.
+			if key := eKey.AsString(); hclsyntax.ValidIdentifier(key) && key != "for" {
 				toks = append(toks, &Token{
 					Type:  hclsyntax.TokenIdent,
 					Bytes: []byte(eKey.AsString()),
